@@ -620,6 +620,17 @@ func (e *Env) call(x *ast.CallExpr) Val {
 			return Val{T: Ite(cmp.T, c.widen(a), c.widen(b)), Ty: a.Ty, Wide: true}
 		}
 		return Val{T: Ite(cmp.T, a.T, b.T), Ty: a.Ty}
+	case "resultof":
+		// the result of the most recent call (on this path) of the callee named in an assert-call clause
+		nm := types.ExprString(x.Args[0])
+		root := e.ex
+		for root.parent != nil {
+			root = root.parent
+		}
+		if v, ok := root.lastResult[nm]; ok {
+			return v
+		}
+		panic(e.fail("resultof(%s): no such call seen before this point", nm))
 	case "called":
 		// number of calls (so far on this path) of the callee named in an assert-call clause
 		nm := types.ExprString(x.Args[0])
